@@ -579,9 +579,6 @@ func (c *Ctx) sameStreamValue(a, b ssa.Value) bool {
 	return false
 }
 
-
-
-
 // ---------------------------------------------------------------------------
 // R-EOF-ACTION-PAST (added after seed C19): the stream's eof_action is consulted only once the end has been
 // passed (end_of_file was delivered), not when the cursor merely stands at the end.
